@@ -10,7 +10,7 @@
    poly_funcR / poly_abelR = .func / .abel of Polynomial(r, rmin, rmax, c, r0, s, reduced) *)
 From Coq Require Import Reals List Arith Bool ZArith QArith Qreals Ring Lia Lra.
 From Coquelicot Require Import Coquelicot.
-From PA Require Import model.Poly model.AbelPoly model.Angular
+From PA Require Import model.Poly model.AbelPoly model.Angular model.SPoly proofs.SPolyProofs proofs.SPolyPiecewise proofs.PolyQ2R
   proofs.PolyRing proofs.AbelPolyAlg proofs.AbelPolyInt proofs.PolyTop proofs.PolyPiecewise
   proofs.AbelPolyEval proofs.AngularProofs proofs.AngularR proofs.ApproxGaussianTail.
 Import ListNotations.
@@ -114,6 +114,83 @@ Theorem C10_scalar_div : forall a l i, a <> 0 ->
   nth i (vscaleR (1 / a) l) 0 = nth i l 0 / a /\ vscaleR a (vscaleR (1 / a) l) = l.
 Proof. intros; split; [apply vscale_div | apply vscale_roundtrip]; auto. Qed.
 Print Assumptions C10_scalar_div.
+
+(* ---- SPolynomial (bivariate r^m cos^n; model/SPoly.v, proofs/SPolyProofs.v) ----
+   cols[n][m] = c[m, n]; sfun cols R C = sum c[m,n] R^m C^n;
+   spfun ... R C = sfun cols ((R - r0)/s) C on [max(r_min,0), r_max), else 0;
+   Abel2 F Rm r cs = 2 * RInt (fun y => F (sqrt(r^2+y^2)) (r cs / sqrt(r^2+y^2))) 0 (sqrt(Rm^2 - r^2)) *)
+
+(* the recursive antiderivatives F(k, lim): d/dy of the spec family is (r/R)^k for every
+   k >= 0 (recursion upwards from k = 0, 1, 2) and (R/r)^j for every j >= 0 (k = -j) *)
+Theorem C10_spoly_F_antiderivative : forall k r y, 0 < r ->
+  is_derive (fun y => FzG k r y (sqrt (r * r + y * y))) y (fz k (r / sqrt (r * r + y * y))).
+Proof. exact FzG_deriv. Qed.
+Print Assumptions C10_spoly_F_antiderivative.
+
+(* the code's F (with arccos) is that family at the integration limits *)
+Theorem C10_spoly_F_code : forall k r rho, 0 < r <= rho ->
+  Fcode k r (sqrt (rho * rho - r * r)) rho = FzG k r (sqrt (rho * rho - r * r)) rho.
+Proof. exact Fcode_eq. Qed.
+Print Assumptions C10_spoly_F_code.
+
+(* per-column stretch and Pascal/Toeplitz shift define the same function of (R, cos) *)
+Theorem C10_spoly_prepare : forall cols r0 s rho c, s <> 0 ->
+  sfun (sp_prepareR cols r0 s) rho c = sfun cols ((rho - r0) / s) c.
+Proof. exact sfun_prepare. Qed.
+Print Assumptions C10_spoly_prepare.
+
+(* .abel of SPolynomial is the Abel transform at every pixel: 0 < r < r_max, r >= r_max, r = 0 *)
+Theorem C10_spoly_abel : forall cols r0 s rmin rmax Rm r cs,
+  s <> 0 -> 0 < r < rmax -> Rmax rmin 0 <= rmax <= Rm ->
+  sp_abel_pt (sp_prepareR cols r0 s) r cs (Rmax rmin 0) rmax = Abel2 (spfun cols r0 s rmin rmax) Rm r cs.
+Proof. exact spoly_abel. Qed.
+Print Assumptions C10_spoly_abel.
+
+Theorem C10_spoly_abel_outside : forall cols r0 s rmin rmax Rm r cs, 0 <= rmax <= r ->
+  Abel2 (spfun cols r0 s rmin rmax) Rm r cs = 0.
+Proof. exact spoly_abel_outside. Qed.
+Print Assumptions C10_spoly_abel_outside.
+
+Theorem C10_spoly_abel_r0 : forall cols r0 s rmin rmax Rm cs,
+  s <> 0 -> 0 < rmax -> Rmax rmin 0 <= rmax <= Rm ->
+  sp_abel_r0 (hd [] (sp_prepareR cols r0 s)) 0 (Rmax rmin 0) rmax = Abel2 (spfun cols r0 s rmin rmax) Rm 0 cs.
+Proof. exact spoly_abel_r0. Qed.
+Print Assumptions C10_spoly_abel_r0.
+
+(* the evaluation form run by the correspondence check (arctangent form, decisions in Q) is the model *)
+Theorem C10_spoly_eval_sound : forall cols r cs rmin rmax, 0 < Q2R r <= Q2R rmax ->
+  sp_abelQ_at cols r cs rmin rmax =
+  sp_abel_pt (map (map Q2R) cols) (Q2R r) (Q2R cs) (Q2R rmin) (Q2R rmax).
+Proof. exact sp_abelQ_at_correct. Qed.
+Print Assumptions C10_spoly_eval_sound.
+
+(* sums of SPolynomial pieces (PiecewiseSPolynomial): abel = Abel2 of the sum of the pieces *)
+Theorem C10_piecewise_s_abel : forall ps Rm r cs, 0 < r -> List.Forall (spiece_ok Rm) ps ->
+  spw_abel ps r cs = Abel2 (spw_fun ps) Rm r cs.
+Proof. exact piecewise_s_abel. Qed.
+Print Assumptions C10_piecewise_s_abel.
+
+(* bspline: a PPoly piece (descending powers of x - x_i, Horner as scipy evaluates it) is the range
+   (x_i, x_{i+1}, reversed coefficients, r_0 = x_i) — bookkeeping only; PPoly.from_spline is trusted *)
+Theorem C10_bspline_conversion_partial : forall cdesc xi x,
+  ppoly_eval cdesc xi x = pevalR (rev cdesc) ((x - xi) / 1).
+Proof. exact bspline_piece. Qed.
+Print Assumptions C10_bspline_conversion_partial.
+
+(* the executed Q instance of the model is the R instance of the theorems on rational inputs:
+   Q2R commutes with prepare, .func and the .abel evaluation form (no parametricity assumption left) *)
+Theorem C10_model_Q2R_func : forall r rmin rmax c r0 s red, ~ (s == 0)%Q ->
+  map Q2R (poly_funcQ r rmin rmax c r0 s red) =
+  poly_funcR (map Q2R r) (Q2R rmin) (Q2R rmax) (map Q2R c) (Q2R r0) (Q2R s) red.
+Proof. exact poly_func_Q2R. Qed.
+Print Assumptions C10_model_Q2R_func.
+
+Theorem C10_model_Q2R_abel : forall r rmin rmax c r0 s red i, ~ (s == 0)%Q ->
+  (forall j, (j < length r)%nat -> 0 <= nth j (map Q2R r) 0) -> (i < length r)%nat ->
+  poly_abelQ_at r rmin rmax c r0 s red i =
+  nth i (poly_abelR (map Q2R r) (Q2R rmin) (Q2R rmax) (map Q2R c) (Q2R r0) (Q2R s) red) 0.
+Proof. exact poly_abel_Q2R. Qed.
+Print Assumptions C10_model_Q2R_abel.
 
 (* the rational evaluation form run by the correspondence check is the model *)
 Theorem C10_abel_eval_sound : forall c sc x rmin rmax,
